@@ -99,6 +99,56 @@ Proof.
 Qed.
 Print Assumptions C18_ends_reset.
 
+(* ---- blank cells ----
+   The same for cell lists in which ANY cell may be blank (Grapheme == "": an untouched screen
+   cell, the continuation cell of a wide character), with any style: a blank cell writes its pen
+   delta and no text, and its pen is carried on, so every cell that has a grapheme comes back
+   with its own pen - whatever the styles of blank cells before it - and the string still ends
+   reset (also when the last cell is a styled blank).  Strictly stronger than roundtrip_cells /
+   ends_reset (one hypothesis less; shown_cells cs = map pcell_of cs without blanks). *)
+Theorem C18_roundtrip_cells_blank : forall (legacy : bool) (cs : list cell),
+  Forall (fun c => wf_scellb c = true) cs ->
+  parse_styled_string (encode_cells legacy cs) = Ok (shown_cells cs, pen0) /\
+  term_feed (encode_cells legacy cs) = Ok (shown_cells cs, pen0) /\
+  new_styled_string pen0 (ss_encode cs) = Ok (shown_cells cs, pen0).
+Proof.
+  intros legacy cs W; repeat split.
+  - exact (enc_loop_decode_blank sgr_run sgr_run_ok sgr_run_reset legacy (sgr_legacy legacy) cs W style0 wf_pen0).
+  - exact (enc_loop_decode_blank sgr_run sgr_run_ok sgr_run_reset legacy (sgr_legacy legacy) cs W style0 wf_pen0).
+  - exact (enc_loop_decode_blank (styled_sgr pen0) (styled_sgr_ok pen0) styled_reset false (no_legacy _) cs W style0 wf_pen0).
+Qed.
+Print Assumptions C18_roundtrip_cells_blank.
+
+Theorem C18_shown_cells_without_blanks : forall cs,
+  Forall (fun c => wf_cellb c = true) cs -> shown_cells cs = map pcell_of cs.
+Proof. exact shown_cells_wf. Qed.
+Print Assumptions C18_shown_cells_without_blanks.
+
+(* the round-trip predicate the differential run evaluates on observed cells accepts what the
+   decoders return for ANY encoded list, and without blank cells it is equality of the lists *)
+Theorem C18_cells_match : forall cs : list cell,
+  cells_match (map pcell_of cs) (shown_cells cs) = true /\
+  (forallb nonblank (map pcell_of cs) = true ->
+   forall got, cells_match (map pcell_of cs) got = pcells_eqb got (map pcell_of cs)).
+Proof. intros cs; split; [apply cells_match_shown | apply cells_match_nonblank]. Qed.
+Print Assumptions C18_cells_match.
+
+(* the renderer draws a blank cell as a space, after the cell's pen delta: every consumer sees
+   the space with the blank cell's pen and the following cells with theirs *)
+Theorem C18_render_roundtrip_blank : forall (legacy rgb smulx : bool) (cs : list pcell),
+  Forall (fun c => wf_spcellb c = true) cs ->
+  let want := map (fun c => (shown (fst c), eff_pen rgb smulx (snd c))) cs in
+  parse_styled_string (render_row legacy rgb smulx cs) = Ok (want, pen0) /\
+  term_feed (render_row legacy rgb smulx cs) = Ok (want, pen0) /\
+  (legacy = false -> new_styled_string pen0 (render_row legacy rgb smulx cs) = Ok (want, pen0)).
+Proof.
+  intros legacy rgb smulx cs W.
+  pose proof (render_loop_decode_blank sgr_run sgr_run_ok sgr_run_reset legacy (sgr_legacy legacy) rgb smulx cs W pen0 wf_pen0) as R1.
+  pose proof (render_loop_decode_blank (styled_sgr pen0) (styled_sgr_ok pen0) styled_reset false (no_legacy _) rgb smulx cs W pen0 wf_pen0) as R2.
+  rewrite eff_pen0 in R1, R2. repeat split; try assumption. intros ->; assumption.
+Qed.
+Print Assumptions C18_render_roundtrip_blank.
+
 (* the renderer's pen emission, for every capability combination: each consumer sees every
    cell with the pen the terminal must hold for it, and the frame ends reset *)
 Theorem C18_render_roundtrip : forall (legacy rgb smulx : bool) (cs : list pcell),
@@ -170,7 +220,9 @@ Print Assumptions C18_parse_total.
 (* ---- the differential run's predicates ----
    An observation of the implementation that equals the model's prediction satisfies the
    property predicate evaluated on the observation (so: zero disagreements implies zero
-   violations, and a violation on a well-formed case is always also a disagreement). *)
+   violations, and a violation on a well-formed case is always also a disagreement).  The
+   predicates cover cell lists with blank cells (codec: cells_match, final pens reset; render:
+   a blank comes back as a space with its pen). *)
 Theorem C18_model_satisfies_predicates :
   (forall legacy cells o, codec_model_ok (legacy, cells, o) = true ->
      codec_holds_gen false (legacy, cells, o) = true /\
@@ -255,6 +307,24 @@ Example C18_ex_roundtrip :
   = [27;91;51;51;109; 27;91;53;56;58;53;58;50;48;48;109; 27;91;49;109; 27;91;52;58;51;109; 97;
      27;91;53;57;109; 27;91;50;50;109; 98;769; 27;91;109].
 Proof. split; [repeat constructor | vm_compute; reflexivity]. Qed.
+
+(* blank cells with styles differing from their neighbours: styled blank then plain text,
+   text / plain blank / same style again, styled blank at the end *)
+Example C18_ex_blank_cells :
+  let bold := mkStyle (mkPen (index_color 1) 0 0 0 aBold) [] [] in
+  let cs1 := [([], bold); ([120], style0)] in
+  let cs2 := [([97], bold); ([], style0); ([98], bold)] in
+  let cs3 := [([97], style0); ([], bold)] in
+  Forall (fun c => wf_scellb c = true) cs2 /\
+  print_toks (encode_cells false cs1) = [27;91;51;49;109; 27;91;49;109; 27;91;51;57;109; 27;91;50;50;109; 120] /\
+  parse_styled_string (encode_cells false cs1) = Ok ([([120], pen0)], pen0) /\
+  parse_styled_string (encode_cells false cs2) = Ok ([([97], spen bold); ([98], spen bold)], pen0) /\
+  print_toks (encode_cells false cs3) = [97; 27;91;51;49;109; 27;91;49;109; 27;91;109] /\
+  (* a reader that loses the pen after the blank, or an unreset end, is rejected by the predicate *)
+  cells_match (map pcell_of cs2) [([97], spen bold); ([32], pen0); ([98], pen0)] = false /\
+  cells_match (map pcell_of cs2) [([97], spen bold); ([32], pen0); ([98], spen bold)] = true /\
+  cells_match (map pcell_of cs1) [([32], spen bold); ([120], spen bold)] = false.
+Proof. split; [repeat constructor | vm_compute; repeat split; reflexivity]. Qed.
 
 (* truncated extended-colour forms return without panic; an empty sub-list (which the parser
    never delivers) is the panic the hypothesis of parse_total excludes *)
